@@ -259,7 +259,20 @@ pub fn run_case(c: &Sexp) -> Sexp {
                     Ok(()) => ok(vec![Sexp::hex(&buf)]),
                     Err(_) => err(),
                 });
-                Sexp::tag("obs", vec![Sexp::hex(&compressed), d])
+                // statelessness of the codec: a decompression that fails part-way (the compressed block cut in half)
+                // must not change what the next, intact block decompresses to
+                let again = if compressed.len() >= 2 {
+                    guarded(|| {
+                        let mut cut = compressed[..compressed.len() / 2].to_vec();
+                        let first = codec.decompress(&mut cut).is_ok();
+                        let mut full = compressed.clone();
+                        let second = codec.decompress(&mut full).map(|()| full == data).unwrap_or(false);
+                        ok(vec![Sexp::num(first as u64), Sexp::num(second as u64)])
+                    })
+                } else {
+                    Sexp::tag("skipped", vec![])
+                };
+                Sexp::tag("obs", vec![Sexp::hex(&compressed), d, again])
             } else {
                 let mut buf = a[1].as_hex().unwrap_or(&[]).to_vec();
                 guarded(|| match codec.decompress(&mut buf) {
